@@ -188,3 +188,85 @@ Qed.
 Theorem win_replay_history_wf : forall ops subs f, wf_fs f -> history_ok subs f ops ->
   Permutation (replay (view_of f) (win_history subs f ops)) (view_of (fold_left apply_op ops f)).
 Proof. intros ops subs f W. apply win_replay_history. now apply wf_closed. Qed.
+
+(* ---------------------------------------------------------------- the emitter over a whole history *)
+Record woracle := WOracle { w_isdir : bytes -> bool; w_walk : bytes -> tree; w_sub : path -> tree }.
+
+Section Run.
+  Variable recursive : bool.
+  Variable root : bytes.
+
+  (* per operation: the oracles of its moment and the way its notifications were cut into reads;
+     the pending RENAMED_OLD_NAME path is carried from call to call *)
+  Fixpoint win_run (steps : list (woracle * list (list native))) (last : bytes) : list ev * bytes :=
+    match steps with
+    | [] => ([], last)
+    | (oc, reads) :: r =>
+      let '(o1, l1, _) := queue_events_seq (w_isdir oc) (w_walk oc) recursive root last reads in
+      let '(o2, l2) := win_run r l1 in
+      (o1 ++ o2, l2)
+    end.
+
+  Fixpoint win_steps_ok (steps : list (woracle * list (list native))) (f : fs) (ops : list op) : Prop :=
+    match ops, steps with
+    | [], [] => True
+    | o :: r, (oc, reads) :: sr =>
+      let after := apply_op f o in
+      op_names_ok o = true /\ op_ok f o = true /\
+      (forall p, w_walk oc (abspath root p) = w_sub oc p) /\ (forall p, wf_tree (w_sub oc p) = true) /\
+      (forall p, w_isdir oc (abspath root p) = fs_isdir after p) /\
+      concat reads = map render_native (win_kernel o) /\
+      covers (w_sub oc) after o /\
+      win_steps_ok sr after r
+    | _, _ => False
+    end.
+
+  Hypothesis Hroot : root <> [].
+  Hypothesis Hsep : last_is_sep root = false.
+
+  Fixpoint win_history_r (subs : list (path -> tree)) (f : fs) (ops : list op) : list aev :=
+    match ops, subs with
+    | o :: r, sub :: sr => win_contract sub recursive (apply_op f o) o ++ win_history_r sr (apply_op f o) r
+    | _, _ => []
+    end.
+
+  Theorem win_run_contracts : forall ops steps f last, win_steps_ok steps f ops ->
+    fst (win_run steps last) = map (render root) (win_history_r (map (fun st => w_sub (fst st)) steps) f ops).
+  Proof.
+    induction ops as [|o r IH]; intros steps f last H.
+    - destruct steps; [reflexivity | destruct H].
+    - destruct steps as [|[oc reads] sr]; [destruct H|].
+      destruct H as (Hn & Ho & Hw & Hwf & Hi & Hc & _ & Hr). cbn [win_run map fst win_history_r].
+      rewrite (win_contract_cut_ok (w_isdir oc) (w_walk oc) (w_sub oc) recursive root Hroot Hsep Hw Hwf f o last reads Hn Ho Hi Hc).
+      specialize (IH sr (apply_op f o) (state_after root last o) Hr).
+      destruct (win_run sr (state_after root last o)) as [o2 l2]. cbn [fst] in *. now rewrite IH, map_app.
+  Qed.
+
+  Lemma steps_history_ok : forall ops steps f, win_steps_ok steps f ops ->
+    history_ok (map (fun st => w_sub (fst st)) steps) f ops.
+  Proof.
+    induction ops as [|o r IH]; intros steps f H; [destruct steps; exact I|].
+    destruct steps as [|[oc reads] sr]; [destruct H|].
+    destruct H as (Hn & Ho & _ & _ & _ & _ & Hc & Hr). cbn [map fst history_ok]. repeat split; auto.
+  Qed.
+End Run.
+
+Lemma win_history_r_true : forall ops subs f, win_history_r true subs f ops = win_history subs f ops.
+Proof.
+  induction ops as [|o r IH]; intros subs f; [destruct subs; reflexivity|].
+  destruct subs; [reflexivity|]. cbn [win_history_r win_history]. now rewrite IH.
+Qed.
+
+(* recursive watch: what WindowsApiEmitter queues over a whole history - one operation at a time,
+   each operation's notifications cut into reads in any way - is the stream of contracts, and
+   replaying it reproduces the final tree *)
+Theorem win_emitter_history : forall root ops steps f last,
+  root <> [] -> last_is_sep root = false -> wf_fs f -> win_steps_ok root steps f ops ->
+  let subs := map (fun st => w_sub (fst st)) steps in
+  fst (win_run true root steps last) = map (render root) (win_history subs f ops) /\
+  Permutation (replay (view_of f) (win_history subs f ops)) (view_of (fold_left apply_op ops f)).
+Proof.
+  intros root ops steps f last Hr Hs W H subs. split.
+  - rewrite (win_run_contracts true root Hr Hs ops steps f last H). now rewrite win_history_r_true.
+  - apply win_replay_history; [now apply wf_closed | now apply (steps_history_ok root ops steps f)].
+Qed.
